@@ -13,13 +13,15 @@ method; 404 otherwise."""
 import io, itertools
 from harness import lib
 
-RULE = ("patterns = every sequence of <= 4 pieces over {abc, a.c, :x, :y?, :r*, :r+} (1555 patterns: documented grammar, "
-        "wildcard-in-the-middle, ValueError ones) plus a malformed stream (regex metacharacters in literals, odd slashes, "
-        "':' alone, repeated names, unicode); paths = every sequence of <= n segments over {abc, abcdef, ab, aXc, a.c, '', x} "
-        "(n=3 quick with an n=5 sweep for the documented-grammar patterns of <= 2 pieces, n=5 for all in thorough; exhaustive) "
-        "plus paths without leading slash, with newlines, unicode; tables: <= 3 routes from a pool of overlapping "
-        "patterns x methods, all registration orders; non-trivial = (pattern, path) pair where the pattern compiles and the "
-        "path shares at least its first segment with the pattern or matches")
+RULE = ("patterns = every sequence of <= 4 pieces over {abc, a.c, :x, :y?, :r*, :r+} (1555 patterns: the documented grammar, "
+        "wildcard-in-the-middle ones, ValueError ones) plus a malformed stream (regex metacharacters in literals, odd slashes, "
+        "':' alone, repeated names, unicode, newline/tab) plus random strings over the metacharacters; paths = every sequence "
+        "of <= n segments over {abc, abcdef, ab, aXc, a.c, '', x} (prefix/extension of a literal, '.' stand-in, empty "
+        "segments = doubled and trailing slashes); quick: n=3 for all patterns and n=5 for the documented-grammar patterns "
+        "of <= 2 pieces; thorough: n=5 for all (19608 paths per pattern, exhaustive); plus paths without leading slash, "
+        "with newlines, unicode; tables: subsets of <= 3 routes from a pool of 14 overlapping (method, pattern) pairs in "
+        "every registration order (thorough: all subsets) x 7 methods x 18 paths, rate-limited or not; non-trivial = the "
+        "pattern compiles and the path matches, or (explicit pairs) shares its first segment with the pattern")
 ASSUMPTIONS = ["request paths contain no newline (premise no_nl of C16_match_spec; an HTTP request line cannot hold one)",
                "?, * and + parameters only in the last segment (the documented grammar; premise wf_pat)"]
 TRUSTED = ["CPython's re module is trusted to parse the generated expression text into the syntax tree printed by the model "
@@ -30,6 +32,7 @@ TRUSTED = ["CPython's re module is trusted to parse the generated expression tex
 S = lambda s: [ord(c) for c in s]
 U = lambda l: "".join(chr(c) for c in l)
 SITE = "mpgameserver/http_server.py:Router.patternToRegex"
+SITE_TABLE = "mpgameserver/http_server.py:Router.getRoute/dispatch"
 
 PIECES = ["abc", "a.c", ":x", ":y?", ":r*", ":r+"]
 PSEGS = ["abc", "abcdef", "ab", "aXc", "a.c", "", "x"]
@@ -257,7 +260,7 @@ def run(run):
         nviol[0] += 1
         run.count("oracle_violations")
         if nviol[0] <= 8:
-            run.oracle_violation(what, case, SITE)
+            run.oracle_violation(what, case, SITE_TABLE if what in ("first-match", "dispatch-status") else SITE)
 
     # ---- 1. patternToRegex: text and tokens
     deferred = []
